@@ -160,6 +160,8 @@ def run_path(cset, fc, prefix, res, opts):
                 ctx.assume(I.spec_bool(inv))
         for label, req in fc.requires:
             ctx.assume(I.spec_bool(req))
+        for req in (opts.get("extra_requires") or {}).get(fc.key, []):
+            ctx.assume(I.spec_bool(req))
         for name, text in fc.lets.items():
             env[name] = I.spec_val(text)
             entry_env[name] = env[name]
